@@ -111,9 +111,19 @@ def gen_loop():
     tb = _func_body(dsrc, "thread_main_handle_connection") or ""
     k = tb.find("was_suspended = false;", max(tb.find("MHD_connection_handle_idle (con)"), 0))   # the one after the idle call
     if k >= 0:
-        tpc_recheck = bool(re.match(r"\s*if\s*\(\s*con->suspended\s*\)\s*continue\s*;", tb[k + len("was_suspended = false;"):k + 200]))
+        tpc_recheck = bool(re.match(r"\s*if\s*\(\s*\(?\s*con->suspended\s*\)?\s*(\|\|[^;{}]*)?\)\s*continue\s*;", tb[k + len("was_suspended = false;"):k + 300]))
     else:
         tpc_recheck = prev_value("Loop.lean", "tpcRechecksSuspend", "true") == "true"
+    # thread-per-connection: does the thread remember a suspension made by its own handler (a field of the connection set in
+    # internal_suspend_connection_ and tested next to `was_suspended`), or only one it still finds at the loop head?
+    m = re.search(r"if\s*\(\s*\(?\s*was_suspended\s*\)?\s*\|\|\s*\(?\s*con->(\w+)", tb)
+    if m:
+        sb = _func_body(dsrc, "internal_suspend_connection_") or ""
+        tpc_marks = bool(re.search(r"connection->%s\s*=\s*true\s*;" % re.escape(m.group(1)), sb))
+    elif re.search(r"if\s*\(\s*was_suspended\s*\)", tb):
+        tpc_marks = False
+    else:
+        tpc_marks = prev_value("Loop.lean", "tpcMarksSuspend", "false") == "true"
     # the state -> event_loop_info table of MHD_connection_update_event_loop_info (unconditional cases only)
     csrc = src("src/microhttpd/connection.c")
     body = _func_body(csrc, "MHD_connection_update_event_loop_info") or ""
@@ -149,6 +159,8 @@ def gen_loop():
     out += "def ereadyDropExactRead : Bool := %s\n" % ("true" if drop_exact else "false")
     out += "/-- thread_main_handle_connection goes back to the suspended branch if the post-resume idle call suspended again -/\n"
     out += "def tpcRechecksSuspend : Bool := %s\n" % ("true" if tpc_recheck else "false")
+    out += "/-- … and remembers a suspension at the moment its own handler suspends (not only when it finds `suspended` set at the loop head) -/\n"
+    out += "def tpcMarksSuspend : Bool := %s\n" % ("true" if tpc_marks else "false")
     out += "/-- states for which MHD_connection_update_event_loop_info unconditionally answers READ / WRITE / PROCESS -/\n"
     for cls, nm in (("READ", "readStates"), ("WRITE", "writeStates"), ("PROCESS", "processStates")):
         if table:
@@ -253,7 +265,9 @@ class Case:
     event = tuple of per-connection actions:
       '-' nothing, 'A' arrive, 'Q' send the whole request, 'q' send the first half, 'r' send the rest,
       'X' client closes, 'W' client half-closes (shutdown SHUT_WR), 'U' resume, 'H' withhold this connection's
-      readiness in this round (select only).  Every event ends with one event-loop round.  After the
+      readiness in this round (select only), 'Z' (tpc only) send the whole request and resume the connection right
+      after the handler suspended it, the daemon thread processing the resume before the connection's thread is
+      back at its loop head.  Every event ends with one event-loop round.  After the
       events the application keeps calling the loop as the API demands (`drain`)."""
 
     def __init__(self, name, mode, profs, events, drain=24, timeout=0, strict=False, suspend=1, cut=None):
@@ -275,7 +289,7 @@ class Case:
         sp = max([p.get("sigpipe", 0) for p in self.P] + [0])
         tcp = max([p.get("tcp", 0) for p in self.P] + [0])
         out = ["case " + self.name,
-               "cfg mode=%s suspend=%d%s%s%s" % ("poll-thr" if self.mode == "poll" else self.mode, self.suspend, (" sigpipe=1" if sp else "") + (" tcp=1" if tcp else ""), " mem=%d" % mem if mem else "", " timeout=%d" % self.timeout if self.timeout else ""),
+               "cfg mode=%s suspend=%d%s%s%s" % ({"poll": "poll-thr", "tpc": "tpc-poll"}.get(self.mode, self.mode), self.suspend, (" sigpipe=1" if sp else "") + (" tcp=1" if tcp else ""), " mem=%d" % mem if mem else "", " timeout=%d" % self.timeout if self.timeout else ""),
                "start"]
         for p in self.P:
             out += p["setup"]
@@ -288,6 +302,9 @@ class Case:
                 if a == "A":
                     out.append("arrive %d %d" % (c, c + 1))
                 elif a == "Q":
+                    out.append("send %d %s" % (c, hx(req)))
+                elif a == "Z":      # tpc: as Q, and the application resumes at the very moment the handler suspends
+                    out.append("race %d" % c)
                     out.append("send %d %s" % (c, hx(req)))
                 elif a == "q":
                     out.append("send %d %s" % (c, hx(req[:len(req) // 2])))
@@ -349,6 +366,7 @@ class Round:
     def __init__(self):
         self.begin = None; self.end = None; self.passed = None; self.evs = []; self.calls = []   # calls: (kind, c, arg, snap)
         self.state = None; self.fdset = None; self.kready = None; self.hint = None; self.app = []  # app: callback lines inside the round
+        self.raw = []        # every line of the round in order (thread-per-connection: steps of the individual threads)
 
 
 def parse_case(lines):
@@ -373,6 +391,7 @@ def parse_case(lines):
         if ln.startswith("round-begin "):
             cur = Round(); cur.begin = parse_snap(ln[12:]); continue
         if cur is not None and cur.end is None:
+            cur.raw.append(ln)
             if ln.startswith("round-end "):
                 cur.end = parse_snap(ln[10:]); rep = {}
                 items.append(("round", cur, rep)); pending_report = rep
@@ -479,6 +498,137 @@ def to_driver(case, items):
                 exp.append(None)
             lab.append("round")
     return inp, exp, lab
+
+
+# ------------------------------------------------------------------ thread-per-connection: steps of the individual threads
+
+class TStepRec:
+    def __init__(self, who):
+        self.who = who; self.passed = {}; self.calls = []; self.mid = False; self.block = None; self.new = []; self.snap = None
+        self.nested = []
+
+
+def tpc_steps(r):
+    """the thread steps of one sweep, in order of their begin; a step nested in another one (the daemon thread's cycle at the
+    extra scheduling point) is in `.nested` of the outer one"""
+    steps, stack, pending_new = [], [], None
+    for ln in r.raw:
+        m = re.match(r"tstep who=(\w+)", ln)
+        if m:
+            st = TStepRec(m.group(1))
+            (stack[-1].nested if stack else steps).append(st)
+            stack.append(st); continue
+        if not stack:
+            continue
+        cur = stack[-1]
+        m = re.match(r"passed who=(\w+) (.*)", ln)
+        if m:
+            cur.passed = dict(kv.split("=") for kv in m.group(2).split()); continue
+        m = re.match(r"H (\w+) c=(-?\d+) arg=(-?\d+) ret=(-?\d+) \| (.*)", ln)
+        if m:
+            cur.calls.append((m.group(1), int(m.group(2)), int(m.group(3)), parse_snap(m.group(5)))); continue
+        if ln.startswith("tmid who="):
+            cur.mid = True; continue
+        m = re.match(r"tnew who=(\d+)", ln)
+        if m:
+            pending_new = int(m.group(1)); continue
+        m = re.match(r"(tpark|texit) who=(\w+)(.*)", ln)
+        if m:
+            blk = "texit" if m.group(1) == "texit" else "tpark" + m.group(3)
+            if pending_new is not None:
+                cur.new.append((pending_new, blk)); pending_new = None
+            else:
+                cur.block = blk
+            continue
+        if ln.startswith("tstate "):
+            cur.snap = parse_snap(ln[7:]); stack.pop(); continue
+    return steps
+
+
+def canon_block(blk):
+    """harness `tpark on=sock ev=r tmo=-1` -> the model's vocabulary"""
+    if blk is None:
+        return "?"
+    if blk == "texit":
+        return "texit"
+    kv = dict(x.split("=") for x in blk.split()[1:])
+    t = int(kv.get("tmo", "-9"))
+    if kv.get("on") == "itc":
+        return "tpark on=itc ev=r tmo=%d" % t
+    return "tpark on=sock ev=%s tmo=%s" % (kv.get("ev", ""), "inf" if t < 0 else "0" if t == 0 else "some")
+
+
+def snap_sets(snap):
+    return "A=[%s] S=[%s] C=[%s]" % tuple(",".join(str(x) for x in sorted(t[0] for t in snap.get(k, []))) for k in "ASC")
+
+
+def to_driver_tpc(case, items, tstats=None):
+    inp, exp, lab = ["mode tpc suspend=%d" % case.suspend], ["ok"], ["mode"]
+    def tokens(calls):
+        toks = []
+        for kind, c, arg, snap in calls:
+            wh, t = where_of(snap, c)
+            toks.append("%s.%d.0.0.0.0.X" % (kind, c) if wh is None else "%s.%d.%d.%d.%d.%d.%s" % (kind, c, t[1], t[2], t[3], t[5], wh))
+        return ",".join(toks) if toks else "-"
+    def emit_daemon(st, check):
+        inp.append("tdaemon"); exp.append(None); lab.append("daemon thread cycle")
+        for c, blk in st.new:
+            inp.append("tnew %d tmo=%d" % (c, case.timeout * 1000))
+            exp.append("tnew wh=A " + canon_block(blk)); lab.append("new thread %d" % c)
+        if check and st.snap is not None:
+            inp.append("tstate"); exp.append("tstate " + snap_sets(st.snap)); lab.append("lists after the daemon thread's cycle")
+        if tstats is not None:
+            tstats["tpc_daemon_cycles"] = tstats.get("tpc_daemon_cycles", 0) + 1
+    for it in items:
+        if it[0] == "resume":
+            inp.append("tresume %d" % it[1]); exp.append("ok"); lab.append("resume %d" % it[1])
+        elif it[0] == "round":
+            for st in tpc_steps(it[1]):
+                if st.who == "D":
+                    emit_daemon(st, True)
+                    continue
+                c = int(st.who)
+                for nd in st.nested:
+                    emit_daemon(nd, False)
+                p = st.passed
+                wh, _ = where_of(st.snap or {}, c)
+                inp.append("tstep %d r=%s w=%s e=%s%s out=%s" % (c, p.get("r", "0"), p.get("w", "0"), p.get("e", "0"),
+                                                                 " res=1" if st.mid else "", tokens(st.calls)))
+                exp.append("tstep calls=[%s] wh=%s %s" % (",".join("%s.%d" % (k, cc) for k, cc, _, _ in st.calls), wh or "?", canon_block(st.block)))
+                lab.append("thread %d: blocking call returned (%s)%s" % (c, " ".join("%s=%s" % kv for kv in sorted(p.items())), " + resume before the loop head" if st.mid else ""))
+                if tstats is not None:
+                    tstats["tpc_thread_steps"] = tstats.get("tpc_thread_steps", 0) + 1
+                    if st.mid:
+                        tstats["tpc_resume_before_loop_head"] = tstats.get("tpc_resume_before_loop_head", 0) + 1
+                    b = canon_block(st.block)
+                    key = "tpc_block_" + ("exit" if b == "texit" else "itc" if "on=itc" in b else "sock_" + b.rsplit("tmo=", 1)[1])
+                    tstats[key] = tstats.get(key, 0) + 1
+    return inp, exp, lab
+
+
+def tpc_segments(items):
+    """pseudo rounds for the law monitor: the handler calls of one thread between two scheduling points"""
+    out = []
+    for it in items:
+        if it[0] != "round":
+            continue
+        def walk(st):
+            k = 0
+            for nd in st.nested:
+                walk(nd)
+            if st.calls:
+                segs = [st.calls]
+                if st.mid:      # the calls before and after the resume are separate segments: find the suspending idle call
+                    for i, (kind, c, arg, snap) in enumerate(st.calls):
+                        if kind == "idle" and where_of(snap, c)[0] == "S":
+                            segs = [st.calls[:i + 1], st.calls[i + 1:]]; break
+                for sg in segs:
+                    if sg:
+                        r = Round(); r.calls = sg
+                        out.append(("round", r, {}))
+        for st in tpc_steps(it[1]):
+            walk(st)
+    return out
 
 
 # ------------------------------------------------------------------ law monitor (what the theorems assume of `Ops`)
@@ -636,7 +786,7 @@ def oracle(case, items):
                 ev = evq.pop(0) if evq else tuple("-" * n)
                 for c in range(n):
                     a = ev[c]
-                    if a in "Qr" and not sent_done[c]:
+                    if a in "QrZ" and not sent_done[c]:
                         sent_done[c] = True; fair[c] = 0
                     if a in "XW":
                         cclosed[c] = True
@@ -645,6 +795,9 @@ def oracle(case, items):
                         m = re.match(r"suspend c=(\d+)", ln)
                         if m and int(m.group(1)) < n:
                             suspended[int(m.group(1))] = True
+                        m = re.match(r"resume c=(\d+)", ln)     # tpc: resumed by another thread while the round is under way
+                        if m and int(m.group(1)) < n:
+                            suspended[int(m.group(1))] = False; fair[int(m.group(1))] = 0
                     nround += 1
                     for c in range(n):
                         if ev[c] != "H":
@@ -694,9 +847,10 @@ def oracle(case, items):
 ACTS = "-AQXUH"
 
 
-def conn_sequences(length, suspends, with_hold):
+def conn_sequences(length, suspends, with_hold, with_race=False):
     """all action sequences of one connection over `length` events:
-       -* A (-|H)* [Q (-|H|U)*] [X -*]   (U only for suspending profiles, at most once, after Q)"""
+       -* A (-|H)* [Q (-|H|U)*] [X -*]   (U only for suspending profiles, at most once, after Q;
+       with_race: Z instead of Q for suspending profiles — resumed at the moment of the suspension, no U afterwards)"""
     out = []
     def rec(seq, arrived, sent, closed, resumed):
         if len(seq) == length:
@@ -707,13 +861,15 @@ def conn_sequences(length, suspends, with_hold):
         elif not closed:
             if not sent:
                 opts.append("Q")
+                if with_race and suspends:
+                    opts.append("Z")
             opts.append("X")
             if with_hold:
                 opts.append("H")
             if suspends and sent and not resumed:
                 opts.append("U")
         for a in opts:
-            rec(seq + [a], arrived or a == "A", sent or a == "Q", closed or a == "X", resumed or a == "U")
+            rec(seq + [a], arrived or a == "A", sent or a in "QZ", closed or a == "X", resumed or a in "UZ")
     rec([], False, False, False, False)
     return out
 
@@ -721,8 +877,8 @@ def conn_sequences(length, suspends, with_hold):
 def gen_exhaustive(mode, length, prof_pairs, strict=False, suspend=1):
     """all schedules of exactly `length` events over 2 connections (shorter ones are prefixes padded with idle rounds)"""
     for pa, pb in prof_pairs:
-        sa = conn_sequences(length, profile(pa, 0).get("suspends", False), mode == "select")
-        sb = conn_sequences(length, profile(pb, 1).get("suspends", False), mode == "select")
+        sa = conn_sequences(length, profile(pa, 0).get("suspends", False), mode == "select", mode == "tpc")
+        sb = conn_sequences(length, profile(pb, 1).get("suspends", False), mode == "select", mode == "tpc")
         for a in sa:
             if "A" not in a:
                 continue
@@ -746,18 +902,26 @@ def gen_directed():
     one = [("A",), ("Q",)]
     two = [("A", "A"), ("Q", "-"), ("-", "Q")]
     two_b = [("A", "A"), ("Q", "Q")]
-    for mode in ("select", "epoll", "poll"):
-        for strict in ((False, True) if mode != "poll" else (True,)):
+    for mode in ("select", "epoll", "poll", "tpc"):
+        for strict in ((False, True) if mode not in ("poll", "tpc") else (True,)):
             for profs, evs in ((["k"], one), (["G", "k"], two), (["G", "k"], two_b), (["k", "G"], two), (["p"], one), (["G", "p"], two),
                                (["G", "K"], two), (["k", "k"], two_b), (["F"], one), (["G", "F"], two), (["F", "C"], two_b), (["f"], one),
                                (["o"], one), (["u"], one), (["t"], one), (["G", "o"], two), (["o", "C"], two_b)):
                 cases.append(Case("d", mode, profs, evs, drain=100, strict=strict))
     # late replies in every back-end: the handler suspends, another thread resumes while the loop is idle
-    for mode in ("select", "epoll", "poll"):
+    for mode in ("select", "epoll", "poll", "tpc"):
         for profs, evs in ((["S"], [("A",), ("Q",), ("-",), ("U",)]), (["L"], [("A",), ("Q",), ("-",), ("U",)]),
                            (["S", "G"], [("A", "A"), ("Q", "Q"), ("-", "-"), ("U", "-")]),
                            (["C", "S"], [("A", "A"), ("Q", "Q"), ("-", "-"), ("-", "-"), ("-", "-"), ("-", "-"), ("-", "U")])):
             cases.append(Case("d", mode, profs, evs, drain=100, strict=True))
+    # thread-per-connection: the application resumes at the moment the handler suspends, the daemon thread processes the resume
+    # before the connection's thread is back at its loop head
+    for profs, evs in ((["S"], [("A",), ("Z",)]), (["L"], [("A",), ("Z",)]), (["S", "G"], [("A", "A"), ("Z", "Q")]),
+                       (["C", "S"], [("A", "A"), ("Q", "Z")]), (["S", "S"], [("A", "A"), ("Z", "Z")]), (["L", "k"], [("A", "A"), ("Z", "Q")])):
+        cases.append(Case("d", "tpc", profs, evs, drain=100, strict=True))
+    for tmo in (0, 5):      # connection timeouts: the thread's own deadline
+        for profs, evs in ((["P"], [("A",), ("q",), ("-",), ("r",)]), (["G", "P"], [("A", "A"), ("Q", "q")]), (["K"], [("A",), ("q",)])):
+            cases.append(Case("d", "tpc", profs, evs, drain=100, strict=True, timeout=tmo))
     for shape in "OUTo":
         full = len(profile(shape, 0)["req"])
         for n in range(1024 - 72, 1024 + 4):
@@ -771,7 +935,7 @@ def gen_directed():
 
 def gen_random(rng, mode, nconn=None):
     n = nconn or rng.choice([1, 2, 2, 3, 3])
-    pool = "GGCcSLPKEHMmRWkpf"
+    pool = "GGCcSLPKEHMmRWkpf" if mode != "tpc" else "GGCcSSLLPKEHMmRkp"    # (W spins by design: one thread at zero timeout for ever)
     small = rng.random() < 0.25
     if small:
         pool = "GCSOUNXMTkout"
@@ -798,11 +962,15 @@ def gen_random(rng, mode, nconn=None):
                     opts.append("H")
                 if P[c].get("suspends") and s["sent"] == 2 and not s["res"]:
                     opts += ["U", "U"]
+                if mode == "tpc" and P[c].get("suspends") and s["sent"] == 0 and rng.random() < 0.3:
+                    opts += ["Z"]
             a = rng.choice(opts)
             if a == "A":
                 s["arr"] = True
             elif a == "Q":
                 s["sent"] = 2
+            elif a == "Z":
+                s["sent"] = 2; s["res"] = True
             elif a == "q":
                 s["sent"] = 1
             elif a == "r":
@@ -813,7 +981,7 @@ def gen_random(rng, mode, nconn=None):
                 s["res"] = True
             ev.append(a)
         evs.append(tuple(ev))
-    tmo = rng.choice([0, 0, 0, 0, 5]) if mode in ("select", "poll") else 0   # timeout lists are C10's; the epoll model needs 0
+    tmo = rng.choice([0, 0, 0, 0, 5]) if mode in ("select", "poll", "tpc") else 0   # timeout lists are C10's; the epoll model needs 0
     susp = 1 if any(p.get("suspends") for p in P) or rng.random() < 0.6 else 0
     return Case("r", mode, profs, evs, drain=100 if small else 30, timeout=tmo, strict=rng.random() < 0.5, suspend=susp)
 
@@ -833,6 +1001,8 @@ def same_line(exp, got):
     any number the code returned is accepted there; `none` and `0` must agree exactly"""
     if exp == got:
         return True
+    if got.endswith("tmo=some") and re.search(r"tmo=\d+$", exp):     # thread-per-connection: a deadline computed from the connection timeout
+        return exp.rsplit(" tmo=", 1)[0] == got.rsplit(" tmo=", 1)[0]
     if got.endswith("hint=some") and not exp.endswith("hint=none"):
         return exp.rsplit(" hint=", 1)[0] == got.rsplit(" hint=", 1)[0]
     return False
@@ -853,9 +1023,14 @@ class Spec:
                          "Mhd.C06.invariant_reachable", "Mhd.C06.invariant_reachable_epoll",
                          "Mhd.C06.no_lost_wakeup", "Mhd.C06.no_lost_wakeup_epoll",
                          "Mhd.C06.progress_one_round", "Mhd.C06.progress",
-                         "Mhd.C06.select_unsaved_prev_loses_wakeup", "Mhd.C06.select_unsaved_prev_breaks_invariant"]
+                         "Mhd.C06.select_unsaved_prev_loses_wakeup", "Mhd.C06.select_unsaved_prev_breaks_invariant",
+                         "Mhd.C06.code_tpc_rechecks_suspend", "Mhd.C06.code_tpc_marks_suspend", "Mhd.C06.tpc_resume_any_time",
+                         "Mhd.C06.tpc_invariant_reachable", "Mhd.C06.tpc_no_lost_wakeup",
+                         "Mhd.C06.tpc_resume_is_served", "Mhd.C06.tpc_progress_one_iteration", "Mhd.C06.tpc_progress",
+                         "Mhd.C06.tpc_no_recheck_loses_wakeup", "Mhd.C06.tpc_unnoticed_resume_loses_wakeup",
+                         "Mhd.C06.tpc_unnoticed_resume_breaks_invariant", "Mhd.C06.connsm_wait_class_in_table"]
     trusted_base = ["Lean 4 kernel", "axioms: propext, Classical.choice, Quot.sound at most (audited per theorem)",
-                    "hand-written loop model lean/Mhd/Model/Loop.lean, LoopRounds.lean tied to daemon.c by this run's correspondence "
+                    "hand-written loop model lean/Mhd/Model/Loop.lean, LoopRounds.lean, LoopTpc.lean tied to daemon.c by this run's correspondence "
                     "(handler-call order, list contents and order, flags, epoll bits, fd sets, hint class predicted for every logged round)",
                     "tools/props/C06.py gen_loop (enum values regenerated semantically; the three saves-prev facts syntactically, "
                     "cross-checked by the correspondence: a wrong flag shows up as a call-order difference)",
@@ -863,9 +1038,14 @@ class Spec:
                     "the per-connection step is a parameter of the model (Ops); the theorems assume the law records Laws (Proofs/LoopCH), "
                     "LawsEp (LoopEpoll), ProgLaws / LawOpen (LoopProgress); frame, idle_where, idle_closed/LawOpen, read_force, idle_quiet are "
                     "monitored on every logged handler call, idle_sync and ProgLaws are what the independent oracle tests end-to-end"]
-    assumptions = ["single-threaded event loop: external select and external epoll in the correspondence; the poll loop (internal thread only in "
-                   "MHD) is covered by the model, its theorems and the regenerated saves-prev fact, not by a lock-step run",
-                   "no listen socket / accept, no TLS, no upgraded connections, no thread-per-connection, connection limit not reached",
+    assumptions = ["event loops in the correspondence: external select, external epoll, MHD_poll_all with the internal thread and thread-per-connection "
+                   "(poll) — the last two in lock-step through an interposed, gated poll(); thread-per-connection with select() and the thread pool "
+                   "are not run",
+                   "thread-per-connection model: one iteration of a connection's thread (blocking call returned -> handlers -> loop head -> next "
+                   "blocking call) is atomic with respect to the daemon thread; a resume is processed between iterations, including right after "
+                   "the iteration in which the handler suspended (the harness has that scheduling point); theorems tpc_* hold for resumes at any "
+                   "moment because the regenerated tpcMarksSuspend is true (code_tpc_marks_suspend; the unfixed loop: tpc_unnoticed_resume_loses_wakeup)",
+                   "no listen socket / accept, no TLS, no upgraded connections, connection limit not reached",
                    "application callbacks touch only their own connection (suspend it, queue a reply); MHD_resume_connection / MHD_add_connection "
                    "are called between rounds; MHD_resume_connection only on suspended connections (API)",
                    "the inter-thread channel (present with MHD_ALLOW_SUSPEND_RESUME) is a watched descriptor for the oracle and is not modelled: the "
@@ -914,7 +1094,7 @@ class Spec:
             cs = cases[k]
             items = parse_case(ll)
             per_case.append(items)
-            inp, exp, lab = to_driver(cs, items)
+            inp, exp, lab = to_driver_tpc(cs, items, stats) if cs.mode == "tpc" else to_driver(cs, items)
             for j in range(len(inp)):
                 dinp.append(inp[j]); dexp.append(exp[j]); dmeta.append((k, lab[j]))
         mout, mrc, merr = vlib.run_lines(self.driver, dinp, timeout=900)
@@ -954,7 +1134,7 @@ class Spec:
                         stats["rounds_ending_in_process"] += 1
                     if it[2].get("hint") == "none":
                         stats["quiescent_reports"] += 1
-            law = law_monitor(items, tmo0=(cs.timeout == 0))
+            law = law_monitor(tpc_segments(items) if cs.mode == "tpc" else items, tmo0=(cs.timeout == 0))
             orc = oracle(cs, items)
             cs.orc_errs = orc
             if orc:
@@ -983,7 +1163,7 @@ class Spec:
             for f, st in ex.map(work, chunks):
                 failures += f
                 for k, v in st.items():
-                    stats[k] += v
+                    stats[k] = stats.get(k, 0) + v
 
     def corpus(self):
         out = []
@@ -1022,6 +1202,11 @@ class Spec:
         for L in range(1, exh_len + 1):      # the internal poll thread, driven in lock-step (it runs only when its poll() would return)
             exh += list(gen_exhaustive("poll", L, pairs_poll, strict=True))
         npoll = len(exh) - npoll0
+        pairs_tpc = [("G", "C"), ("S", "C"), ("C", "S"), ("S", "S"), ("G", "S")] if not thorough else [(a, b) for a in "GCSk" for b in "GCSk"]
+        ntpc0 = len(exh)
+        for L in range(1, exh_len + 1):      # thread-per-connection, every thread driven in lock-step through the gated poll()
+            exh += list(gen_exhaustive("tpc", L, pairs_tpc, strict=True))
+        ntpc = len(exh) - ntpc0
         nstrict0 = len(exh)
         for L in range(1, exh_len):        # the same schedules with an application that calls the loop only when obliged to
             exh += list(gen_exhaustive("select", L, pairs_sel, strict=True))
@@ -1031,7 +1216,7 @@ class Spec:
             exh += list(gen_exhaustive("select", L, nosusp, strict=True, suspend=0))
             exh += list(gen_exhaustive("epoll", L, nosusp, strict=True, suspend=0))
         nrand = (20000 if thorough else 1500) * (3 if boost else 1)
-        rnd = [gen_random(ctx.rng, ctx.rng.choice(["select", "select", "epoll", "poll"])) for _ in range(nrand)]
+        rnd = [gen_random(ctx.rng, ctx.rng.choice(["select", "select", "epoll", "poll", "tpc"])) for _ in range(nrand)]
         allc = cases + exh + rnd
         self.run_parallel(allc, failures, stats)
         # the same client bytes must be answered (or not) independently of the polling back-end
@@ -1065,12 +1250,24 @@ class Spec:
                        % (exh_len, len(pairs_sel), len(pairs_ep)),
                "samples": [allc[ncorp].key() if len(allc) > ncorp else "", exh[len(exh) // 2].key(), rnd[0].key() if rnd else ""],
                "exhaustive_schedules_select": nsel, "exhaustive_schedules_epoll": npoll0 - nsel, "exhaustive_schedules_poll_thread": npoll,
+               "exhaustive_schedules_thread_per_connection": ntpc,
                "exhaustive_schedules_strict_application": len(exh) - nstrict0, "exhaustive_bound_events": exh_len,
                "random_histories": len(rnd), "corpus": ncorp, "directed": len(directed), "modes": modes, "profiles": profs, "outcomes": stats,
                "correspondence": {"call_handlers / internal_run_from_select / MHD_epoll / resume / new-connection processing / cleanup / "
                                   "internal_get_fdset2 / MHD_get_timeout64 (class)": "bounded-exhaustive (schedules <= %d events, 2 connections) + random %d" % (exh_len, len(rnd)),
                                   "MHD_poll_all (internal thread, gated poll(): one release = one cycle, the timeout argument is the hint)":
-                                      "bounded-exhaustive (schedules <= %d events, 2 connections, %d profile pairs) + directed + random share" % (exh_len, len(pairs_poll))},
+                                      "bounded-exhaustive (schedules <= %d events, 2 connections, %d profile pairs) + directed + random share" % (exh_len, len(pairs_poll)),
+                                  "thread_main_handle_connection + the daemon thread of MHD_USE_THREAD_PER_CONNECTION|MHD_USE_POLL (every thread parks in the gated "
+                                  "poll(); one release = one iteration of one thread; per iteration the model predicts the handler calls, the list the "
+                                  "connection is in and the next blocking call: ITC or socket, events, timeout class zero/finite/infinite/250 ms; extra "
+                                  "scheduling point right after the handler suspends: resume processed before the thread is back at the loop head)":
+                                      "bounded-exhaustive (schedules <= %d events, 2 connections, %d profile pairs, actions {-,A,Q,Z,X,U}) + directed + random share; "
+                                      "thread iterations %d, daemon-thread cycles %d, resumes before the loop head %d; next blocking call: socket/infinite %d, "
+                                      "socket/zero %d, socket/deadline %d, ITC/250ms %d, thread left the loop %d"
+                                      % (exh_len, len(pairs_tpc), stats.get("tpc_thread_steps", 0), stats.get("tpc_daemon_cycles", 0),
+                                         stats.get("tpc_resume_before_loop_head", 0), stats.get("tpc_block_sock_inf", 0), stats.get("tpc_block_sock_0", 0),
+                                         stats.get("tpc_block_sock_some", 0), stats.get("tpc_block_itc", 0), stats.get("tpc_block_exit", 0)),
+                                  "thread-per-connection with select() (the other branch of thread_main_handle_connection)": "model and theorems only"},
                "exhaustive": False}
         return failures, cov
 
